@@ -222,6 +222,10 @@ func init() {
 			return out
 		},
 		Families: []core.Family{
+			{Name: "operations-deep-down", Exhaustive: true, Count: func(core.Tier) int { return len(deepDepths) * 2 }, Run: func(c *core.Ctx, idx int) {
+				c01Run(c, deepOpsCase(deepDepths[idx/2], idx%2), V5Opts{NegIdx: idx%4 < 2, EscapeHTML: true})
+				c.Count("deep:cases")
+			}},
 			{Name: "indices-beyond-the-int-range", Exhaustive: true, Count: func(core.Tier) int { return len(hugeIdxToks18) * 5 * 2 * 2 }, Run: func(c *core.Ctx, idx int) {
 				tok := hugeIdxToks18[idx%len(hugeIdxToks18)]
 				idx /= len(hugeIdxToks18)
